@@ -110,7 +110,10 @@ fn route_items(r: &RouteM) -> Item {
     if let Some(w) = &r.websocket {
         kids.push(Item::Kv("websocket".into(), q(w)));
     }
-    Item::Section(format!("route {}", r.patterns.join(", ")), kids)
+    // the separator spelling is layout: `/a, /b`, `/a,/b`, `/a ,  /b` denote the same list
+    let h = r.patterns.iter().map(|p| p.len()).sum::<usize>() + r.patterns.len();
+    let sep = [", ", ",", " , ", ",  "][h % 4];
+    Item::Section(format!("route {}", r.patterns.join(sep)), kids)
 }
 
 fn shuffle<T>(v: &mut Vec<T>, rng: &mut Lcg) {
